@@ -36,3 +36,15 @@ func (e *Err) Error() string { return "err" + strconv.Itoa(e.Code) }
 
 func F1() int { return 1 }
 func F2() int { return 2 }
+
+// Generic containers: the type name carries its type arguments ("Box[int8]").
+type Box[T any] struct {
+	Head T
+	Tail []T
+	N    int
+}
+
+type Wrap[T any] struct {
+	Box[T]
+	Label string `hseq:"label"`
+}
